@@ -78,7 +78,12 @@ func (exec *BatchExecutor) SetSupportedProtocolVersions(versions ...kmip.Protoco
 	if len(versions) == 0 {
 		versions = defaultSupportedVersion
 	}
-	slices.SortFunc(versions, ttlv.CompareVersions)
+	// Keep the list sorted in descending order, like defaultSupportedVersion, so that
+	// DiscoverVersions lists the most recent version first as required by the specification.
+	versions = slices.Clone(versions)
+	slices.SortFunc(versions, func(a, b kmip.ProtocolVersion) int {
+		return ttlv.CompareVersions(b, a)
+	})
 	versions = slices.Compact(versions)
 	exec.supportedVersions = versions
 }
